@@ -429,6 +429,62 @@ Proof.
       apply elem_In. eapply free_names_chans; [apply elem_In; eapply elem_of_list_lookup_2; eauto|]. apply elem_In. set_solver.
 Qed.
 
+(* ------------------------------------------------------------------ send *)
+Lemma send_msg_facts pp k m : action_of Async D pp = ASend k m ->
+  (m_rule m = RGC -> is_dfwd (pr_body0 pp) = true) /\ (m_rule m = RFWD -> m_provs m = pr_provs pp).
+Proof.
+  intros Ha. unfold action_of in Ha.
+  destruct (pr_body0 pp) as [to pay cont|pay cont from k0|to l cont|from bs|x b k0|c0|c0 k0|to from d|x y from k0|fn args pt|to cont|x from k0|c0 k0|l k0] eqn:Eb;
+    simpl in Ha;
+    repeat match type of Ha with
+           | (if ?b then _ else _) = _ => destruct b eqn:?
+           | match ?x with _ => _ end = _ => destruct x eqn:?
+           end;
+    try discriminate;
+    try (unfold internal in Ha; destruct (multi pp); discriminate);
+    try (unfold recv_on in Ha; repeat match type of Ha with
+           | (if ?b then _ else _) = _ => destruct b
+           | match ?x with _ => _ end = _ => destruct x
+           end; discriminate);
+    try (unfold send_on in Ha; destruct (multi pp); [discriminate|];
+         repeat match type of Ha with match ?x with _ => _ end = _ => destruct x end; try discriminate;
+         injection Ha as <- <-; split; discriminate).
+  all: injection Ha as <- <-; destruct d; split; intros H; try discriminate; reflexivity.
+Qed.
+
+Lemma invx_send Δ c p pp k m st :
+  cfg_typed D F teq Δ c -> Topo c -> LinCfg c -> ns_ok c -> ProvsOk c -> DropUnref c -> NoFd c ->
+  procs c !! p = Some pp -> action_of Async D pp = ASend k m ->
+  chans c !! k = Some st -> ch_closed st = false -> ch_buf st = None ->
+  Rest (del_proc (put_msg c k st (Some m)) p).
+Proof.
+  intros Hc Ht Hl Hns Hpv Hd Hnf Hp Ea Hk Hcl Hb.
+  destruct (ct_procs D F teq Δ c Hc p pp Hp) as (s & rs & Hne & Hprovs & Hty).
+  destruct (send_msg_facts pp k m Ea) as [Hgc Hfw].
+  destruct (send_objs D pp k m Hne Ea) as (Hrefs & _).
+  set (c' := del_proc (put_msg c k st (Some m)) p).
+  destruct (topo_send_gc D c p pp k m st Ht Hl Hp Hne Ea) as [Ht' Hl']; try done.
+  { destruct (rule_eqb (m_rule m) RGC) eqn:E.
+    - apply rule_eqb_eq in E. right. intros j o2 Hj Ho2. destruct (Hd p pp Hp (Hgc E)) as [_ H]. by apply H.
+    - left. intros E'. rewrite E' in E. discriminate. }
+  assert (Hobj' : forall o', obj_in c' o' -> obj_in c o' \/ o' = OMsg k m).
+  { intros [r rr|k' m'] Ho'; unfold c', del_proc, put_msg in Ho'; cbn in Ho'.
+    - apply lookup_delete_Some in Ho' as [_ H]. by left.
+    - destruct Ho' as (st' & H & Hbuf). apply lookup_insert_Some in H as [[<- <-]|[Hne' H]].
+      + cbn in Hbuf. injection Hbuf as <-. by right.
+      + left. by exists st'. }
+  split; [exact Ht'|]. split; [exact Hl'|]. split; [|split].
+  - split.
+    + intros q v Hq. unfold c' in Hq. cbn in Hq. apply lookup_delete_Some in Hq as [_ Hq]. exact (proj1 Hpv q v Hq).
+    + intros k' st' m' Hk' Hb' Hr. unfold c' in Hk'. cbn in Hk'. apply lookup_insert_Some in Hk' as [[<- <-]|[_ Hk']].
+      * cbn in Hb'. injection Hb' as <-. rewrite (Hfw Hr). exact (proj1 Hpv p pp Hp).
+      * exact (proj2 Hpv k' st' m' Hk' Hb' Hr).
+  - apply (dropunref_step Δ c c' Hc Hd).
+    + intros o' j Ho' Hj _. destruct (Hobj' o' Ho') as [Ho| ->]; [eauto|]. exists (OProc p pp). split; [exact Hp|]. by apply Hrefs.
+    + intros q v Hq _. left. unfold c' in Hq. cbn in Hq. by apply lookup_delete_Some in Hq as [_ Hq].
+  - intros q v Hq. unfold c' in Hq. cbn in Hq. apply lookup_delete_Some in Hq as [_ Hq]. exact (Hnf q v Hq).
+Qed.
+
 Record InvX (c : config) : Prop := {
   ix_typed : exists Δ, cfg_typed D F teq Δ c;
   ix_topo : Topo c;
